@@ -118,6 +118,13 @@ MUTATORS = {
         ("batched route forgets exponent", r"quimb/tensor/belief_propagation/hv1bp\.py$", r"^(\s+)exponent = self\.exponent\s*$", r"\1exponent = 0.0"),
         ("bp constructor aliases tn", r"quimb/tensor/belief_propagation/bp_common\.py$", r"^(\s+)self\.tn = tn if inplace else tn\.copy\(\)\s*$", r"\1self.tn = tn"),
     ],
+    "C15": [
+        ("ownership dropped from keyword dict", r"quimb/gen/operators\.py$", r"^(\s+)\"ownership\": ownership,\s*$", None),
+        ("ownership dropped", r"quimb/(core|gen/operators)\.py$", r"^(\s+)ownership=ownership,\s*$", None),
+        ("sibling arguments swapped", r"quimb/core\.py$", r"^(\s+)return _permute_sparse\(p, dims, perm\)\s*$", r"\1return _permute_sparse(p, perm, dims)"),
+        ("sparse expectation roles", r"quimb/core\.py$", r"^(\s+)\(0, 1, 1\): realify\(lambda a, b: dot\(dag\(a\), dot\(b, a\)\)\[0, 0\]\),\s*$", r"\1(0, 1, 1): realify(lambda a, b: dot(dag(b), dot(a, b))[0, 0]),"),
+        ("range not rejected", r"quimb/core\.py$", r"^(\s+)raise ValueError\(f\"Ownership \(\{ri\}, \{rf\}\) not in range \[0-\{D\}\]\.\"\)\s*$", r"\1pass"),
+    ],
     "C16": [
         ("every thread does all blocks", r"quimb/core\.py$", r"^(\s+)for b in range\(thread_rank, num_blocks, num_threads\):\s*$", r"\1for b in range(num_blocks):"),
         ("no lower clamp", r"quimb/core\.py$", r"^(\s+)num_blocks = max\(num_blocks, 1\)\s*$", None),
